@@ -125,7 +125,14 @@ def translate(beh, rng):
                 continue
             first, faults = _calls(e, inv, world)
             if first is None:
-                continue      # in-memory step (EndMark, Mark, Enqueue, EndObserve, Complete ...)
+                # in-memory step (EndMark, Mark, Enqueue, EndObserve, EndDelete, Complete ...): no call to attach pending
+                # environment steps to; clock ticks (which only such a step can observe, e.g. the deferred timeout check)
+                # are moved in front of the last call the invocation made, the rest waits for the next call
+                ticks = [p for p in inv["pending"] if p["a"] == "Tick"]
+                if ticks and inv["last"] is not None:
+                    inv["step"].setdefault("at", []).append(dict(inv["last"], steps=ticks))
+                    inv["pending"] = [p for p in inv["pending"] if p["a"] != "Tick"]
+                continue
             if e["f"] == "ok":
                 if a == "Taint":
                     world["tainted"].add(e["x"])
@@ -398,7 +405,7 @@ def variants(name, steps, calls_per_step, rng, tier):
 
 
 # ---------------------------------------------------------------------------------------------- running and summarising
-def record(run, scenarios, prefix="orch", shards=2, procs=8):
+def record(run, scenarios, prefix="orch", shards=1, procs=8):
     import concurrent.futures as cf
     procs = max(1, min(procs, len(scenarios)))
     run.build_drv()
